@@ -315,7 +315,8 @@ impl Sub for MultiDimLoad {
 
 impl PartialOrd for MultiDimLoad {
     fn partial_cmp(&self, other: &Self) -> Option<Ordering> {
-        let size = self.size.max(other.size);
+        // NOTE: two loads without dimensions are equal, compare at least one (zero) dimension
+        let size = self.size.max(other.size).max(1);
         (0..size)
             .try_fold(None, |acc, idx| {
                 let result = self.get(idx).cmp(&other.get(idx));
